@@ -96,7 +96,11 @@ func Load(repo string, extraEnv ...string) (*Prog, error) {
 			continue
 		}
 		if len(fn.TypeArgs()) > 0 {
-			continue // analyse the generic body once
+			// analyse the generic body once: the origin (template) function
+			fn = fn.Origin()
+			if fn == nil || fn.Blocks == nil {
+				continue
+			}
 		}
 		name := FnName(fn)
 		if _, dup := p.Funcs[name]; dup {
